@@ -8,11 +8,14 @@ import (
 	"github.com/xanzy/go-gitlab"
 )
 
-// Issues returns a channel with gitlab project issues, ascending order.
-func Issues(ctx context.Context, client *gitlab.Client, pid string, since time.Time) <-chan *gitlab.Issue {
+// Issues returns a channel with gitlab project issues, ascending order, and a channel
+// that receives the error that interrupted the listing, if any, once the first one is closed.
+func Issues(ctx context.Context, client *gitlab.Client, pid string, since time.Time) (<-chan *gitlab.Issue, <-chan error) {
 	out := make(chan *gitlab.Issue)
+	errOut := make(chan error, 1)
 
 	go func() {
+		defer close(errOut)
 		defer close(out)
 
 		opts := gitlab.ListProjectIssuesOptions{
@@ -24,6 +27,7 @@ func Issues(ctx context.Context, client *gitlab.Client, pid string, since time.T
 		for {
 			issues, resp, err := client.Issues.ListProjectIssues(pid, &opts, gitlab.WithContext(ctx))
 			if err != nil {
+				errOut <- err
 				return
 			}
 
@@ -39,7 +43,7 @@ func Issues(ctx context.Context, client *gitlab.Client, pid string, since time.T
 		}
 	}()
 
-	return out
+	return out, errOut
 }
 
 // Notes returns a channel with note events
